@@ -83,15 +83,58 @@ def num(q, short):
 
 
 # ------------------------------------------------------------------ rendering into graders
-SUPPORTS = {
-    'table': {'miss', 'hit', 'part', 'lib', 'foreign'},
-    'string': {'miss', 'hit', 'lib'},
-    'formula': {'miss', 'hit', 'part', 'lib', 'foreign'},
-    'numerical': {'miss', 'hit', 'part', 'lib', 'foreign'},
-    'matrix': {'miss', 'hit', 'part', 'lib', 'foreign'},
-    'singlelist': {'miss', 'hit', 'part', 'lib'},
+# Host graders / option contexts (mirror of BestAlternative!HostKinds: the specification says which comparison
+# outcomes a host can realise and lists, per case, the hosts to replay in; this table says how to render them).
+ALL_KINDS = {'miss', 'hit', 'part', 'lib', 'foreign'}
+NO_PART = {'miss', 'hit', 'lib'}
+HOSTS = {
+    'table': dict(fam='table', kinds=ALL_KINDS, input='IN', filler=('fill', 'fill')),
+    'string': dict(fam='string', kinds=NO_PART, options={'strip': True, 'case_sensitive': False}, input='Ans',
+                   hits=['ans', 'ANS', ' Ans', 'aNs ', '  ans  ', 'Ans'], filler=('zz', 'zz')),
+    'string_exact': dict(fam='string', kinds=NO_PART, options={}, input='Ans',
+                         hits=['Ans', ' Ans', 'Ans  ', '\tAns'], filler=('zz', 'zz')),
+    'formula': dict(fam='math', cls='FormulaGrader', kinds=ALL_KINDS, options={'variables': ['x'], 'samples': 2},
+                    input='x+1', hits=['x+1', '1+x', '(x+1)*1', 'x+2-1', '2*x+1-x', '(x+1)^1'], miss=['x+1+%d'],
+                    filler=('x', 'x')),
+    'formula_tol': dict(fam='math', cls='FormulaGrader', kinds=ALL_KINDS,
+                        options={'variables': ['x'], 'samples': 1, 'tolerance': 0.1, 'sample_from': {'x': [2, 3]}},
+                        input='x+1', hits=['x+1', 'x+1.05', 'x+0.95', '1+x'], miss=['x+1+%d', 'x+1.5'],
+                        filler=('x', 'x')),
+    'numerical': dict(fam='math', cls='NumericalGrader', kinds=ALL_KINDS, options={}, input='1+2',
+                      hits=['3', '6/2', '1.5*2', '3.0', '2+1', 'sqrt(9)'], miss=['3+%d'], filler=('7', '7')),
+    'numerical_tol': dict(fam='math', cls='NumericalGrader', kinds=ALL_KINDS, options={'tolerance': '2%'}, input='1+2',
+                          hits=['3', '3.03', '2.97', '6/2'], miss=['3+%d', '3.3'], filler=('7', '7')),
+    'matrix': dict(fam='math', cls='MatrixGrader', kinds=ALL_KINDS, lib='shape',
+                   options={'answer_shape_mismatch': {'is_raised': True, 'msg_detail': 'shape'}}, input='[1,2]',
+                   hits=['[1,2]', '[2,4]/2', '[0,1]+[1,1]', '2*[0.5,1]', '[1,2]*1', '[1,1+1]'], miss=['[1,2+%d]'],
+                   filler=('[5,5]', '[5,5]')),
+    # matrix error messages suppressed: the submission has another shape than some stored answers (those are misses)
+    'matrix_suppress': dict(fam='math', cls='MatrixGrader', kinds=ALL_KINDS, options={'suppress_matrix_messages': True},
+                            input='[1,2,3]', hits=['[1,2,3]', '[2,4,6]/2', '[0,1,2]+[1,1,1]', '[1,2,3]*1'],
+                            miss=['[1,2]', '[1,2,3+%d]', '[[1,2],[3,%d]]', '[1,2+%d]', '%d'], filler=('[5,5]', '[5,5]')),
+    'singlelist': dict(fam='list', kinds=NO_PART | {'part'}, shape='flat', sub='string', ordered=False, pc=True, n=2),
+    'singlelist_ordered': dict(fam='list', kinds=NO_PART | {'part'}, shape='flat', sub='numerical', ordered=True,
+                               pc=True, n=2),
+    'singlelist4': dict(fam='list', kinds=NO_PART | {'part'}, shape='flat', sub='string', ordered=False, pc=True, n=4),
+    'singlelist4_ordered': dict(fam='list', kinds=NO_PART | {'part'}, shape='flat', sub='numerical', ordered=True,
+                                pc=True, n=4),
+    'singlelist_aon': dict(fam='list', kinds=NO_PART, shape='flat', sub='string', ordered=False, pc=False, n=2),
+    'singlelist_aon_ordered': dict(fam='list', kinds=NO_PART, shape='flat', sub='numerical', ordered=True, pc=False,
+                                   n=3),
+    'interval': dict(fam='list', kinds=NO_PART | {'part'}, shape='interval', sub='numerical', ordered=True, pc=True, n=2),
+    'interval_aon': dict(fam='list', kinds=NO_PART, shape='interval', sub='numerical', ordered=True, pc=False, n=2),
+    'nested': dict(fam='list', kinds=NO_PART | {'part'}, shape='nested', sub='string', ordered=False, pc=True, n=4),
+    'nested_aon': dict(fam='list', kinds=NO_PART, shape='nested', sub='string', ordered=False, pc=False, n=4),
 }
-GRADERS = ['table', 'string', 'formula', 'numerical', 'matrix', 'singlelist']
+GRAIN = {'singlelist': 2, 'singlelist_ordered': 2, 'interval': 2, 'singlelist4': 4, 'singlelist4_ordered': 4, 'nested': 4}
+# primary host of each grader class (always replayed) and the other option contexts (rotated in the quick tier)
+FAMILIES = [('table', []), ('string', ['string_exact']), ('formula', ['formula_tol']), ('numerical', ['numerical_tol']),
+            ('matrix', ['matrix_suppress']),
+            ('singlelist', ['singlelist_aon', 'interval_aon', 'nested_aon', 'singlelist_aon_ordered', 'singlelist_ordered',
+                            'interval', 'nested'])]
+RANDOM_HOSTS = ['table', 'string', 'string_exact', 'formula', 'formula_tol', 'numerical', 'numerical_tol', 'matrix',
+                'matrix_suppress', 'singlelist4', 'singlelist4_ordered', 'singlelist_aon', 'singlelist_aon_ordered',
+                'interval', 'interval_aon', 'nested', 'nested_aon']
 FORMS = ['alone', 'inlist', 'inlist2', 'insingle']
 
 
@@ -103,13 +146,16 @@ def kinds_of(alts):
     return ks
 
 
-def supported(gname, alts, listlen=2):
-    if not kinds_of(alts) <= SUPPORTS[gname]:
+def supported(host, alts):
+    """mirror of BestAlternative!Realisable (the specification decides; the trace spec rejects a record whose host
+    cannot realise its alternatives as malformed)"""
+    if not kinds_of(alts) <= HOSTS[host]['kinds']:
         return False
-    if gname == 'singlelist':      # a fraction of the credit must be a whole number of list items
+    g = GRAIN.get(host, 0)
+    if g:
         for a in alts:
             for v in a['vals']:
-                if v['k'] == 'part' and (frac(v['f']) * listlen).denominator != 1:
+                if v['k'] == 'part' and (frac(v['f']) * g).denominator != 1:
                     return False
     return True
 
@@ -129,16 +175,10 @@ def make_comparer(v, text, exceptions):
     return comparer
 
 
-HITS = {
-    'string': ['ans', 'ANS', ' Ans', 'aNs ', '  ans  ', 'Ans'],
-    'formula': ['x+1', '1+x', '(x+1)*1', 'x+2-1', '2*x+1-x', '(x+1)^1'],
-    'numerical': ['3', '6/2', '1.5*2', '3.0', '2+1', 'sqrt(9)'],
-    'matrix': ['[1,2]', '[2,4]/2', '[0,1]+[1,1]', '2*[0.5,1]', '[1,2]*1', '[1,1+1]'],
-}
-INPUT = {'table': 'IN', 'string': 'Ans', 'formula': 'x+1', 'numerical': '1+2', 'matrix': '[1,2]'}
-FILLER = {'table': ('fill', 'fill'), 'string': ('zz', 'zz'), 'formula': ('x', 'x'), 'numerical': ('7', '7'),
-          'matrix': ('[5,5]', '[5,5]'), 'singlelist': (['u', 'w'], 'u,w')}
-SL_ITEMS = ['p', 'q', 'r', 's']
+ITEMS = {'string': ['p', 'q', 'r', 's'],
+         'numerical': ['1', '2', '3', '4']}
+SPELL = {'1': ['1', '2/2', '1.0'], '2': ['2', '1+1', '4/2'], '3': ['3', '6/2', '3.0'], '4': ['4', '2*2', '8/2'],
+         'p': ['p', ' p', 'p '], 'q': ['q', ' q'], 'r': ['r', 'r '], 's': ['s', '  s']}
 
 
 def make_notation(alts, short=False, variant=0, rng=None):
@@ -173,27 +213,31 @@ def make_notation(alts, short=False, variant=0, rng=None):
 
 
 class Rendering(object):
-    """answers tuple, grader options and submission realising the abstract alternatives in one grader class"""
+    """answers tuple, grader options and submission realising the abstract alternatives in one host context"""
 
-    def __init__(self, gname, alts, short=False, listlen=2, variant=0, notation=None):
+    def __init__(self, host, alts, short=False, variant=0, notation=None):
         import mitxgraders
         from mitxgraders import exceptions
-        self.gname, self.alts, self.short = gname, alts, short
-        self.options = {}
+        self.host, self.h, self.alts, self.short = host, HOSTS[host], alts, short
+        self.fam = self.h['fam']
+        self.options = dict(self.h.get('options', {}))
         self.table = {('fill', 'fill'): 1}
-        self.listlen = listlen
         self.variant = variant
         self.exceptions = exceptions
         self.mitx = mitxgraders
-        self.input = ', '.join(SL_ITEMS[:listlen]) if gname == 'singlelist' else INPUT[gname]
-        if gname == 'string':
-            self.options = {'strip': True, 'case_sensitive': False}
-            if 'lib' in kinds_of(alts):
-                self.options['validation_pattern'] = '[^!]*'
-        elif gname == 'formula':
-            self.options = {'variables': ['x'], 'samples': 2}
-        elif gname == 'matrix':
-            self.options = {'answer_shape_mismatch': {'is_raised': True, 'msg_detail': 'shape'}}
+        self.has_lib = 'lib' in kinds_of(alts)
+        if self.fam == 'string' and self.has_lib:
+            self.options['validation_pattern'] = '[^!]*'
+        if self.fam == 'list':
+            n, items = self.h['n'], ITEMS[self.h['sub']]
+            if self.h['shape'] == 'interval':
+                self.input = '[1, 2)'
+            elif self.h['shape'] == 'nested':
+                self.input = 'p, q; r, s'
+            else:
+                self.input = ', '.join(items[:n])
+        else:
+            self.input = self.h['input']
         self.notation = notation or make_notation(alts, short, variant)
         nt = self.notation
         items = [nt['item']] if nt['t'] == 'single' else nt['items']
@@ -212,11 +256,12 @@ class Rendering(object):
             written.append(d)
         self.answers = written[0] if nt['t'] == 'single' else tuple(written)
 
+    # ---- one value of one alternative
     def value(self, i, j, a, v):
-        g = self.gname
         kind = v['e'] if v['k'] == 'raise' else v['k']
         pick = (i * 3 + j + self.variant)
-        if g == 'table':
+        uid = 10 * i + j
+        if self.fam == 'table':
             key = 'v%d_%d' % (i, j)
             if kind == 'hit':
                 self.table[(key, 'IN')] = (1, marker('A', a['msg']))
@@ -229,62 +274,112 @@ class Rendering(object):
             elif kind == 'foreign':
                 self.table[(key, 'IN')] = ('raise', ValueError('E%02d' % v['eid']))
             return key
-        if g == 'string':
+        if self.fam == 'string':
             if kind == 'hit':
-                return HITS[g][pick % len(HITS[g])]
+                return self.h['hits'][pick % len(self.h['hits'])]
             if kind == 'miss':
                 return 'no%d_%d' % (i, j)
             return 'E%02d!' % v['eid']
-        if g in ('formula', 'numerical', 'matrix'):
-            hit = HITS[g][pick % len(HITS[g])]
+        if self.fam == 'math':
+            hit = self.h['hits'][pick % len(self.h['hits'])]
             if kind == 'hit':
                 return hit
             if kind == 'miss':
-                return {'formula': 'x+1+%d', 'numerical': '3+%d', 'matrix': '[1,2+%d]'}[g] % (10 * i + j)
-            if g == 'matrix' and kind == 'lib':
+                m = self.h['miss'][pick % len(self.h['miss'])]
+                return m % uid if '%d' in m else m
+            if self.h.get('lib') == 'shape' and kind == 'lib':
                 # a stored answer of another shape: the default comparer raises, the length names the alternative
                 return '[' + ','.join(['1'] * v['eid']) + ']'
             return {'comparer_params': [hit], 'comparer': make_comparer(v, marker('P', v['m']), self.exceptions)}
-        if g == 'singlelist':
-            items = SL_ITEMS[:self.listlen]
-            if kind == 'hit':
-                forms = [list(items), list(reversed(items)), ','.join(items), ' , '.join(reversed(items))]
-                return forms[pick % len(forms)]
-            if kind == 'miss':
-                return ['n%d_%d_%d' % (i, j, t) for t in range(self.listlen)]
-            if kind == 'part':
-                k = int(frac(v['f']) * self.listlen)
-                lst = [{'expect': items[0], 'msg': marker('P', v['m'])}] + items[1:k] + \
-                      ['z%d_%d_%d' % (i, j, t) for t in range(self.listlen - k)]
-                if pick % 2:
-                    lst = lst[1:] + lst[:1]
-                return lst
-            return items[:-1] + ['E%02d!' % v['eid']]
-        raise ValueError(g)
+        return self.list_value(kind, pick, uid, v)
 
-    def grader(self, wrong_text, form, debug=False):
+    def list_value(self, kind, pick, uid, v):
+        h = self.h
+        n, sub, shape = h['n'], h['sub'], h['shape']
+        items = ITEMS[sub][:n]
+        spelled = [SPELL[x][(pick + t) % len(SPELL[x])] for t, x in enumerate(items)]
+        wrong = (['z%d_%d' % (uid, t) for t in range(n)] if sub == 'string' else [str(70 + uid + 100 * t) for t in range(n)])
+        if kind == 'hit':
+            content = spelled if pick % 2 else list(items)
+            if not h['ordered'] and shape == 'flat' and pick % 3 == 0:
+                content = list(reversed(content))
+            as_text = pick % 4 >= 2
+        elif kind == 'miss':
+            content, as_text = wrong, pick % 4 == 3
+        elif kind == 'part':
+            k = int(frac(v['f']) * GRAIN[self.host])
+            if shape == 'nested':
+                k = int(frac(v['f']) * 4)
+            content = [{'expect': items[0], 'msg': marker('P', v['m'])}] + items[1:k] + wrong[k:]
+            as_text = False
+        else:   # lib: the comparison with this stored list raises a library error naming the alternative
+            content = items[:-1] + ['E%02d!' % v['eid'] if sub == 'string' else 'E%02d' % v['eid']]
+            as_text = pick % 2 == 0
+        if shape == 'interval':
+            if as_text:
+                return '[%s, %s)' % (content[0], content[1])
+            return ['[', content[0], content[1], ')']
+        if shape == 'nested':
+            if as_text:
+                return '%s, %s; %s, %s' % tuple(content)
+            if kind == 'hit' and pick % 3 == 0:
+                return [content[2:], content[:2]]
+            return [content[:2], content[2:]]
+        if as_text:
+            return (', ' if pick % 2 else ',').join(content)
+        return content
+
+    # ---- grader objects
+    def item_class_and_options(self, wrong_text):
         m = self.mitx
-        g = self.gname
         opts = dict(self.options)
         if wrong_text or not self.short:
             opts['wrong_msg'] = wrong_text
-        if g == 'table':
+        if self.fam == 'table':
             from engine.fixtures import TableGrader
-            cls = TableGrader
             opts['table'] = self.table
-        elif g == 'singlelist':
-            cls = m.SingleListGrader
-            sub = {'strip': True}
-            if 'lib' in kinds_of(self.alts):
-                sub['validation_pattern'] = '[^!]*'
-            opts['subgrader'] = m.StringGrader(**sub)
+            return TableGrader, opts
+        if self.fam == 'string':
+            return m.StringGrader, opts
+        if self.fam == 'math':
+            return getattr(m, self.h['cls']), opts
+        h = self.h
+        if h['sub'] == 'string':
+            subopts = {'strip': True}
+            if self.has_lib:
+                subopts['validation_pattern'] = '[^!]*'
+            sub = m.StringGrader(**subopts)
         else:
-            cls = {'string': m.StringGrader, 'formula': m.FormulaGrader, 'numerical': m.NumericalGrader,
-                   'matrix': m.MatrixGrader}[g]
+            sub = m.NumericalGrader(tolerance=1e-9)
+        opts['partial_credit'] = h['pc']
+        if h['shape'] == 'interval':
+            opts['subgrader'] = sub
+            return m.IntervalGrader, opts
+        if h['shape'] == 'nested':
+            opts['subgrader'] = m.SingleListGrader(subgrader=sub, delimiter=',', partial_credit=h['pc'])
+            opts['delimiter'] = ';'
+            return m.SingleListGrader, opts
+        opts['subgrader'] = sub
+        opts['ordered'] = h['ordered']
+        return m.SingleListGrader, opts
+
+    def filler(self):
+        if self.fam != 'list':
+            return self.h['filler']
+        shape, sub = self.h['shape'], self.h['sub']
+        if shape == 'interval':
+            return '(5, 6]', '(5,6]'
+        if shape == 'nested':
+            return [['u', 'w'], ['k', 'l']], 'u,w;k,l'
+        return (['u', 'w'], 'u,w') if sub == 'string' else (['8', '9'], '8,9')
+
+    def grader(self, wrong_text, form):
+        m = self.mitx
+        cls, opts = self.item_class_and_options(wrong_text)
         if form == 'alone':
             item = cls(answers=self.answers, **opts)
             return item, item, self.input
-        fill_ans, fill_in = FILLER[g]
+        fill_ans, fill_in = self.filler()
         item = cls(**opts)
         if form == 'inlist':
             outer = m.ListGrader(answers=[self.answers, fill_ans], subgraders=item, ordered=True)
@@ -293,7 +388,7 @@ class Rendering(object):
             outer = m.ListGrader(answers=[fill_ans, self.answers], subgraders=[cls(**opts), item], ordered=True)
             return outer, item, [fill_in, self.input]
         if form == 'insingle':
-            outer = m.SingleListGrader(answers=[self.answers], subgrader=item, delimiter=';')
+            outer = m.SingleListGrader(answers=[self.answers], subgrader=item, delimiter='|')
             return outer, item, self.input
         raise ValueError(form)
 
@@ -340,9 +435,9 @@ def project(alts, wrong, form, call):
     return dict(base, grade=[q.numerator, q.denominator], msg=m)
 
 
-def run_case(gname, alts, wrong, form, short=False, listlen=2, variant=0, notation=None):
+def run_case(gname, alts, wrong, form, short=False, variant=0, notation=None):
     """-> (projected observation, comparison order seen by TableGrader or None)"""
-    rd = Rendering(gname, alts, short=short, listlen=listlen, variant=variant, notation=notation)
+    rd = Rendering(gname, alts, short=short, variant=variant, notation=notation)
     holder = {}
 
     def call():
@@ -356,11 +451,13 @@ def run_case(gname, alts, wrong, form, short=False, listlen=2, variant=0, notati
     return obs, calls
 
 
-def describe(gname, alts, wrong, form, short=False, listlen=2, variant=0, notation=None):
+def describe(gname, alts, wrong, form, short=False, variant=0, notation=None):
     """the concrete configuration as text, for violation reports"""
     from engine import repo
     repo.activate()
-    rd = Rendering(gname, alts, short=short, listlen=listlen, variant=variant, notation=notation)
+    rd = Rendering(gname, alts, short=short, variant=variant, notation=notation)
+    cls, opts = rd.item_class_and_options(marker('W', wrong))
+    opts = {k: v for k, v in opts.items() if k not in ('table', 'wrong_msg')}
 
     def show(x):
         if isinstance(x, dict):
@@ -368,7 +465,12 @@ def describe(gname, alts, wrong, form, short=False, listlen=2, variant=0, notati
         if isinstance(x, (list, tuple)):
             return type(x)(show(v) for v in x)
         return '<comparer>' if callable(x) else x
-    return {'grader': gname, 'form': form, 'answers': repr(show(rd.answers)), 'options': repr(show(rd.options)),
+    def showopt(v):
+        return '%s(%s)' % (type(v).__name__, ', '.join('%s=%r' % kv for kv in sorted(v.config.items())
+                                                       if kv[0] in ('partial_credit', 'delimiter', 'strip', 'tolerance',
+                                                                    'validation_pattern'))) if hasattr(v, 'config') else v
+    return {'grader': '%s [%s]' % (cls.__name__, gname), 'host': gname, 'form': form, 'answers': repr(show(rd.answers)),
+            'options': repr({k: showopt(v) for k, v in show(opts).items()}),
             'wrong_msg': marker('W', wrong), 'input': rd.input,
             'table': repr({k: (v if not (isinstance(v, tuple) and v[0] == 'raise') else ('raise', repr(v[1])))
                            for k, v in rd.table.items()}) if gname == 'table' else None}
@@ -385,6 +487,8 @@ def classify(alts, allowed, obs):
     if obs['k'] == 'res' and res:
         if obs['grade'] != res[0]['grade']:
             return 'grade-not-maximum'
+        if obs['msg']['id'] == -1:
+            return 'message-from-elsewhere'
         if obs['msg']['id'] == 99 or any(o['msg']['id'] == 99 for o in res):
             return 'wrong-msg-rule'
         return 'message-not-longest-of-best'
@@ -406,6 +510,7 @@ def replay_states(states, extra):
     bad = []
     drift = []
     sample = None
+    mismatch = None
     for st in states:
         c = st['c']
         if c['kind'] != 'case':
@@ -415,20 +520,31 @@ def replay_states(states, extra):
         out = st['out']
         kinds = sorted(kinds_of(alts))
         h = zlib.crc32(json.dumps(c['alts'], sort_keys=True).encode())      # stable per-case rotation key
-        plan = []
+        plan = []          # (host, form, wrong_msg settings)
         if part == 'table':
-            plan = [('table', 'alone')]
+            plan = [('table', 'alone', (0, 1))]
         else:
-            for g in GRADERS:
-                if not supported(g, alts):
-                    continue
-                for form in (('alone', 'inlist', 'insingle', 'inlist2') if full else ('alone', 'inlist', 'insingle')):
-                    plan.append((g, form))
+            hosts = set(out['hosts'])
+            if hosts != {x for x in HOSTS if supported(x, alts)}:
+                mismatch = 'specification lists hosts %s, adapter can render %s (%s)' % (
+                    sorted(hosts), sorted(x for x in HOSTS if supported(x, alts)), c['alts'])
+            for fi, (primary, others) in enumerate(FAMILIES):
+                others = [x for x in others if x in hosts]
+                if full:
+                    chosen = ([primary] if primary in hosts else []) + others
+                else:       # quick tier: the primary context and one of the other option contexts, rotating
+                    chosen = ([primary] if primary in hosts else []) + ([others[(h >> fi) % len(others)]] if others else [])
+                for hi, host in enumerate(chosen):
+                    plan.append((host, 'alone', (0, 1)))
+                    if full:
+                        plan.append((host, FORMS[1 + (h + hi + fi) % 3], (0, 1)))
+                if chosen and not full:
+                    plan.append((chosen[(h >> 3) % len(chosen)], FORMS[1 + (h >> 5) % 3], ((h >> 7) % 2,)))
         for wi, (wrong, akey, ckey) in enumerate(((NOMSG, 'none', 'code_none'), (WRONG, 'some', 'code_some'))):
             allowed = out[akey]
-            for gi, (g, form) in enumerate(plan):
-                if not full and form != 'alone' and ((h + gi) % 4 != wi):
-                    continue            # quick tier: per case and grader one embedding with one wrong_msg setting
+            for (g, form, wis) in plan:
+                if wi not in wis:
+                    continue
                 short = (wi == 0)
                 obs, calls = run_case(g, alts, wrong, form, short=short, variant=h % 6)
                 evals += 1
@@ -449,7 +565,8 @@ def replay_states(states, extra):
                         and len(drift) < 5:
                     drift.append('comparison order %s differs from the modelled listing order %s'
                                  % (calls, flat_positions(alts)[:out['calls']]))
-    return {'n': n, 'evals': evals, 'keys': sorted(keys), 'bad': bad, 'drift': drift, 'sample': sample}
+    return {'n': n, 'evals': evals, 'keys': sorted(keys), 'bad': bad, 'drift': drift, 'sample': sample,
+            'mismatch': mismatch}
 
 
 def replay_loop_states(states, extra):
@@ -479,14 +596,13 @@ def report(ctx, b):
         return
     notation = b.get('notation') or make_notation(b['alts'], b['short'], b.get('variant', 0))
     sig = describe(b['grader'], b['alts'], b['wrong'], b['form'], short=b['short'], variant=b.get('variant', 0),
-                   listlen=b.get('listlen', 2), notation=notation)
+                   notation=notation)
     sig['alternatives'] = b.get('descs') or b['alts']
     sig['allowed'] = b['allowed']
     sig['observed'] = b['observed']
     sig['class'] = b.get('clause') or classify(b['alts'], b['allowed'], b['observed'])
-    sig['case'] = {'id': 0, 'grader': b['grader'], 'form': b['form'], 'short': b['short'],
-                   'variant': b.get('variant', 0), 'listlen': b.get('listlen', 2), 'alts': b['alts'],
-                   'wrong': b['wrong'], 'notation': notation}
+    sig['case'] = {'id': 0, 'grader': b['grader'], 'host': b['grader'], 'form': b['form'], 'short': b['short'],
+                   'variant': b.get('variant', 0), 'alts': b['alts'], 'wrong': b['wrong'], 'notation': notation}
     ctx.violation(sig, '%s (%s) answers=%s wrong_msg=%r on %r: spec allows %s, code gave %s [%s]' % (
         sig['grader'], sig['form'], sig['answers'], sig['wrong_msg'], sig['input'],
         brief(b['allowed']), brief([b['observed']]), sig['class']))
@@ -508,9 +624,8 @@ def brief(outs):
 
 # ------------------------------------------------------------------ code -> spec (random driver)
 def rand_case(rng, idx):
-    gname = rng.choice(GRADERS)
+    gname = rng.choice(RANDOM_HOSTS)
     n = rng.choice([1, 2, 2, 3, 3, 4, 4, 5, 6, 6])
-    listlen = 4 if gname == 'singlelist' else 2
     credits = [[0, 1], [1, 8], [1, 4], [3, 8], [1, 2], [5, 8], [3, 4], [7, 8], [1, 1]]
     # few distinct credits and lengths per case, so that ties are frequent
     cpool = rng.sample(credits, rng.randint(1, 3)) + [[0, 1]] * rng.randint(0, 1) + [[1, 1]] * rng.randint(0, 1)
@@ -519,7 +634,9 @@ def rand_case(rng, idx):
     kinds = ['miss', 'miss', 'hit', 'hit', 'part', 'part']
     if rng.random() < 0.25:
         kinds += ['lib', 'foreign']
-    kinds = [k for k in kinds if k in SUPPORTS[gname]]
+    kinds = [k for k in kinds if k in HOSTS[gname]['kinds']]
+    if GRAIN.get(gname) == 2:
+        fpool = [[1, 2]]
     alts = []
     for i in range(1, n + 1):
         ln = rng.choice(lpool)
@@ -542,16 +659,22 @@ def rand_case(rng, idx):
     wl = rng.choice([0, rng.randint(3, 40)])
     wrong = {'id': 99, 'len': wl} if wl else NOMSG
     form = rng.choice(FORMS)
-    return {'id': idx, 'grader': gname, 'form': form, 'short': rng.random() < 0.5, 'variant': rng.randint(0, 5),
-            'listlen': listlen, 'alts': alts, 'wrong': wrong, 'notation': make_notation(alts, rng=rng)}
+    return {'id': idx, 'grader': gname, 'host': gname, 'form': form, 'short': rng.random() < 0.5,
+            'variant': rng.randint(0, 5), 'alts': alts, 'wrong': wrong, 'notation': make_notation(alts, rng=rng)}
 
 
 def observe_chunk(cases, extra):
     from engine import repo
     repo.activate()
+    from engine import bystanders
     recs = []
-    for c in cases:
-        obs, _ = run_case(c['grader'], c['alts'], c['wrong'], c['form'], short=c['short'], listlen=c['listlen'],
+    for k, c in enumerate(cases):
+        if k % 100 == 0:        # unrelated grader objects work in between (shared class-level state must not leak)
+            try:
+                bystanders.stress()
+            except Exception:  # noqa
+                pass
+        obs, _ = run_case(c['grader'], c['alts'], c['wrong'], c['form'], short=c['short'],
                           variant=c['variant'], notation=c['notation'])
         c = dict(c)
         c['obs'] = obs
@@ -599,8 +722,8 @@ def doc_example_records(start_id):
                 q = Fraction(float(r['grade_decimal'])).limit_denominator(4096)
                 obs = {'k': 'res', 'grade': [q.numerator, q.denominator],
                        'msg': texts.get(r['msg'], {'id': -1, 'len': len(r['msg'])}), 'cls': 'none', 'eid': 0}
-                recs.append({'id': start_id + len(recs), 'grader': 'string', 'form': 'docs', 'short': True, 'variant': 0,
-                             'listlen': 2, 'alts': alts, 'wrong': wrong, 'obs': obs,
+                recs.append({'id': start_id + len(recs), 'grader': 'string', 'host': 'string_exact', 'form': 'docs',
+                             'short': True, 'variant': 0, 'alts': alts, 'wrong': wrong, 'obs': obs,
                              'notation': {'t': 'tuple', 'items': items, 'item': items[0]},
                              'doc': {'answers': repr(listing), 'wrong_msg': wrong_text, 'input': inp}})
     return recs
@@ -624,6 +747,9 @@ def run(ctx):
                 ctx.nontrivial.add(tuple(map(str, k)))
             if x['sample']:
                 ctx.sample(x['sample'], limit=3)
+            if x['mismatch']:
+                from engine.main import Machinery
+                raise Machinery('host table of the specification and of the adapter disagree: ' + x['mismatch'])
             for b in x['bad']:
                 report(ctx, b)
             for dr in x['drift']:
@@ -651,7 +777,7 @@ def run(ctx):
     cases = []
     while len(cases) < n:
         c = rand_case(ctx.rng, len(cases))
-        if supported(c['grader'], c['alts'], c['listlen']):
+        if supported(c['grader'], c['alts']):
             cases.append(c)
     recs = [r for chunk in dump.pmap('engine.adapters.c08', 'observe_chunk', cases) for r in chunk]
     recs += doc_example_records(len(recs))
@@ -678,7 +804,7 @@ def run(ctx):
                 sig['answers'], sig['wrong_msg'], sig['input'], brief([r['obs']]), clause))
             continue
         report(ctx, {'alts': r['alts'], 'wrong': r['wrong'], 'grader': r['grader'], 'form': r['form'],
-                     'short': r['short'], 'variant': r['variant'], 'listlen': r['listlen'], 'notation': r['notation'],
+                     'short': r['short'], 'variant': r['variant'], 'notation': r['notation'],
                      'allowed': 'not in BestAlternative!AllowedOut (BestAlternativeTrace)', 'clause': clause,
                      'observed': r['obs']})
     bounds.update({'tier': ctx.tier, 'random_records': n, 'max_alternatives_exhaustive': 3 if ctx.quick else 4,
